@@ -375,22 +375,59 @@ func (fr *Frame) frameCheck(st *State, p *PtrPath, pos token.Pos) {
 	if top == nil || top.contract == nil || x.noObl > 0 {
 		return
 	}
-	c := top.contract
 	lo, hi, _, _ := resolvePath(p)
 	for j := lo; j < hi; j++ {
 		n, _ := x.leafHeapName(p, j)
-		ok := false
-		for _, a := range c.Assigns {
-			if heapMatches(n, a) {
-				ok = true
-			}
-		}
+		ok, rows := x.frameAllow(n)
 		if !ok {
 			goal := tCmp(">", p.Ref, top.entry.allocTop)
+			for _, r := range rows {
+				goal = tOr(goal, tEq(p.Ref, r))
+			}
 			x.oblige(st, "frame", "write "+n, pos, goal, nil, false)
 			return
 		}
 	}
+}
+
+// frameAllow: may the function under verification write heap `name`? Either
+// everywhere (ok), or only at the rows its assigns clause names (evaluated in
+// the entry state), or only in objects it allocated itself.
+func (x *Exec) frameAllow(name string) (bool, []string) {
+	top := x.top
+	var rows []string
+	for _, a := range top.contract.Assigns {
+		pat, ex := splitAssign(a)
+		if !heapMatches(name, pat) && pat != "*" {
+			continue
+		}
+		if ex == "" {
+			return true, nil
+		}
+		if top.assignRows == nil {
+			top.assignRows = map[string]string{}
+		}
+		r, done := top.assignRows[a]
+		if !done {
+			e, err := parseSpecExpr(ex)
+			if err == nil {
+				env := top.specEnv(top.entry)
+				env.old = nil
+				if v, verr := env.evalVal(e); verr == nil {
+					r = v.L[0]
+				} else {
+					x.vc.diag("assigns %s: %v", a, verr)
+				}
+			} else {
+				x.vc.diag("assigns %s: %v", a, err)
+			}
+			top.assignRows[a] = r
+		}
+		if r != "" {
+			rows = append(rows, r)
+		}
+	}
+	return false, rows
 }
 
 func (fr *Frame) execUnOp(st *State, in *ssa.UnOp) {
